@@ -37,6 +37,7 @@ class FuncInfo:
     node: ast.FunctionDef
     cls: Optional["ClassInfo"] = None
     kind: str = "method"     # method | function | getter | setter
+    orig: Optional[ast.FunctionDef] = None    # the function as written; `node` may have new private helpers spliced in (inline.py)
 
     @property
     def name(self) -> str:
@@ -220,6 +221,9 @@ class Repo:
                         mod.runtime_names |= {n for n in src_mod.runtime_names if not n.startswith("_")}
         for mod in self.modules.values():
             self._index_module(mod)
+        from .inline import Inliner
+        self.inliner = Inliner(self)
+        self.inliner.run()
         self.counts["modules"] = len(self.modules)
         self.counts["classes"] = len(self.classes)
         self.counts["functions"] = len(self.funcs)
@@ -307,6 +311,21 @@ class Repo:
 
     def subclasses(self, cname: str) -> List[str]:
         return [c for c in self.classes if any(k.name == cname for k in self.mro(c))]
+
+    def closure_src(self, fi: FuncInfo, depth: int = 2) -> str:
+        """source text of a function together with the private helpers it calls (for presence checks)"""
+        out = [ast.unparse(fi.orig or fi.node)]
+        if depth > 0:
+            seen = set()
+            for x in ast.walk(fi.orig or fi.node):
+                if isinstance(x, ast.Call):
+                    h = self.inliner.resolve(x, fi) if hasattr(self, "inliner") else None
+                    if h is not None and id(h) not in seen:
+                        seen.add(id(h))
+                        for f2 in self.all_functions():
+                            if (f2.orig or f2.node) is h:
+                                out.append(self.closure_src(f2, depth - 1))
+        return "\n".join(out)
 
     def all_functions(self) -> List[FuncInfo]:
         seen, out = set(), []
